@@ -37,6 +37,11 @@ func plan(prop, tier string) []Part {
 			{Name: "big", N: q(tier, 16, 200), Chunk: 4, Procs: []int{4, 16}, Timeout: to},
 			{Name: "err", N: q(tier, 200, 4000), Chunk: 40, Procs: []int{2, 16, 4, 1}, Timeout: to},
 		}
+		if tier == "thorough" {
+			// scheduler diversity: the same families built with the other installed toolchain
+			ps = append(ps, Part{Name: "mixed-go126", N: 6000, Chunk: 40, Procs: []int{2, 16, 4, 1}, Toolchain: "go1.26.8", Timeout: to},
+				Part{Name: "nq-go126", N: 4000, Chunk: 40, Procs: []int{2, 16, 4, 1}, Toolchain: "go1.26.8", Timeout: to})
+		}
 		return ps
 	case "C02":
 		return []Part{
@@ -63,6 +68,7 @@ func plan(prop, tier string) []Part {
 			{Name: "race", N: q(tier, 240, 6000), Chunk: 20, Race: true, Procs: []int{4, 16, 2}, Timeout: 20 * time.Minute},
 			{Name: "race-nq", N: q(tier, 80, 2000), Chunk: 20, Race: true, Procs: []int{4, 16}, Timeout: 20 * time.Minute},
 			{Name: "race-err", N: q(tier, 80, 2000), Chunk: 20, Race: true, Procs: []int{4, 16}, Timeout: 20 * time.Minute},
+			{Name: "race-go126", N: q(tier, 0, 4000), Chunk: 20, Race: true, Procs: []int{4, 16, 2}, Toolchain: "go1.26.8", Timeout: 20 * time.Minute},
 		}
 	case "C04":
 		return []Part{
